@@ -104,7 +104,7 @@ CLAIMED.update({
    note="A crash leaves exactly the first k commands applied; PAN-OS prefixes are candidate-config states; Linux iptables load is atomic."),
  "C14": dict(category="exploration", design="DESIGN.md §3 C14",
    technique="runtime monitoring: step monitor evaluating every packet of a small universe against the bound ACLs (and the routed destinations) after every executed script entry",
-   text="(old, new) ACL pairs over a small universe (4 hosts, 2 nets, 2 ports, tcp/udp/ip), related by edits or drawn independently, and route-set pairs are fed to the real drc; the script is executed entry by entry (joined entry = one step) on the ASA/IOS/Linux models; after each step every packet on which old and new agree must get that verdict, every destination routed before and after must be routed. quick 2000 pairs, thorough 30000.",
+   text="(old, new) ACL pairs over a small universe (4 hosts, 2 nets, 2 ports, tcp/udp/ip), related by edits, by several interacting line edits in one ACL, by a block-split construction (new lines of the other action inside one long block plus moved lines) or drawn independently, and route-set pairs are fed to the real drc; the script is executed entry by entry (joined entry = one step) on the ASA/IOS/Linux models; after each step every packet on which old and new agree must get that verdict, every destination routed before and after must be routed. quick 2400 pairs, thorough 30000.",
    note="Verdict = permit/deny of the first matching entry; an unbound interface counts as a different verdict; object-groups are not generated (excluded by the statement)."),
 })
 
